@@ -42,6 +42,7 @@ func seeds(seed int64, per int, out string) [][]byte {
 				// rich seeds first (every IE list filled with several IEs), then minimal ones
 				g.MaxList = []int{4, 1, 8, 2}[k%4]
 				g.MinList = []int{5, 0, 3, 1}[k%4]
+				g.Rich = k%2 == 0
 				pdu := ngapType.NGAPPDU{Present: top.present}
 				pv := reflect.ValueOf(&pdu).Elem()
 				msg := pv.Field(top.present)
